@@ -57,6 +57,30 @@ def eval (st : KSt) (fn : String) (args : List String) (impl : String) : Option 
     match Buf.alGet st.sess up with
     | none => pure (st, { model := "65" })
     | some _ => pure ({ st with sess := Buf.alDel st.sess up, free := st.free ++ [up] }, { model := "1" })
+  | "krep.burst", [up, urr, n, cp] =>
+    -- n single-report notifications for (up, urr) while the loop is busy with an establishment (control-plane SEID cp)
+    let up ← parseHexNat up
+    let urr ← urr.toNat?
+    let n ← n.toNat?
+    let cp ← parseHexNat cp
+    -- the establishment
+    let (nup, st1) := match st.free.getLast? with
+      | some x => (x, { st with free := st.free.dropLast })
+      | none => (st.slots + 1, { st with slots := st.slots + 1 })
+    let st2 := { st1 with sess := Buf.alSet st1.sess nup { cp := cp, urrs := [] } }
+    -- the reports: each is delivered (one usage report each) iff the session knows the URR
+    let known := match Buf.alGet st2.sess up with
+      | some s => (Buf.alGet s.urrs urr).isSome
+      | none => false
+    let st3 := if known then
+        match Buf.alGet st2.sess up with
+        | some s => { st2 with sess := Buf.alSet st2.sess up { s with urrs := Buf.alSet s.urrs urr (((Buf.alGet s.urrs urr).getD 0) + n) } }
+        | none => st2
+      else st2
+    let want := s!"{natHex nup} n={if known then n else 0}"
+    pure (st3, { model := want,
+                 propFails := if impl == want then [] else
+                   [s!"C10 {n} usage-report notifications for URR {urr} of session {natHex up} handed up while the event loop was busy: the SMF received '{impl}' (new session, usage reports); every report is due once: '{want}'"] })
   | "krep.report", toks =>
     let items ← toks.mapM fun t => match splitOn1 t ':' with
       | [a, b, c, d] => do pure (← parseHexNat a, ← b.toNat?, ← c.toNat?, ← parseHexNat d)
